@@ -46,7 +46,10 @@ REQUIRED = ["OPM.C33.notified_iff", "OPM.C33.notified_only_entitled", "OPM.C33.c
 NOW = 1_700_000_000           # seconds; time.time() as seen by webpush_publisher during a case
 FRESH = NOW * 1000
 LIMIT = (NOW - 300) * 1000    # timestamps strictly below this are "more than 5 minutes old"
-NEW_CONTRIBUTOR = 6
+# Topics are numbered by their position in `NotificationTopic` of the tree under test; nothing is hard-coded:
+NEW_CONTRIBUTOR = -1          # number of NotificationTopic.NEW_CONTRIBUTOR   } set by _init_topics()
+NT = 0                        # number of topics                               }
+OTHER = UNSEL = -1            # two different topics that are not NEW_CONTRIBUTOR }
 
 # A case: {"ops": [...]}
 #   ["pref", user, [roles], scope(0 access|1 contributed|2 specific), [topics], [units]]
@@ -54,13 +57,23 @@ NEW_CONTRIBUTOR = 6
 #                              ["sub", user] = an endpoint of its own)      ["del", row_id]
 #   ["pub", topic, unit_id, [required roles], [contributor ids or None], contributor_id|None, configured, timestamp|None]
 #   ["topicprefs", topic]
+#   ["engine", unit_id, [required roles], has_run]     a registered engine (no contributors yet) + a FromFrontend on it
+#   ["act", kind, user|None, name, configured]         kind in ACT_KINDS: that user saves the method / cancels / forces /
+#                                                       executes a command / presses a control button on the engine
 
 
 def _topics():
     from openpectus.aggregator.models import NotificationTopic
-    ts = list(NotificationTopic)
-    assert ts[NEW_CONTRIBUTOR] is NotificationTopic.NEW_CONTRIBUTOR
-    return ts
+    return list(NotificationTopic)
+
+
+def _init_topics() -> None:
+    global NEW_CONTRIBUTOR, NT, OTHER, UNSEL
+    from openpectus.aggregator.models import NotificationTopic
+    ts = _topics()
+    NT = len(ts)
+    NEW_CONTRIBUTOR = ts.index(NotificationTopic.NEW_CONTRIBUTOR)
+    OTHER, UNSEL = [i for i in range(NT) if i != NEW_CONTRIBUTOR][:2]
 
 
 def _scope(i: int):
@@ -73,8 +86,11 @@ def nl(xs) -> str:
     return "-" if not xs else ",".join(str(x) for x in xs)
 
 
-def op_lines(case, pub="pub") -> list[str]:
-    out = []
+ACT_KINDS = ["save", "cancel", "force", "command", "control"]
+
+
+def op_lines(case, pub="pub", act="act") -> list[str]:
+    out = [f"config\t{NEW_CONTRIBUTOR}"]
     for op in case["ops"]:
         k = op[0]
         if k == "pref":
@@ -85,6 +101,10 @@ def op_lines(case, pub="pub") -> list[str]:
             out.append(f"del\t{op[1]}")
         elif k == "topicprefs":
             out.append(f"topicprefs\t{op[1]}")
+        elif k == "engine":
+            out.append(f"engine\t{op[1]}\t{nl(op[2])}\t{'1' if op[3] else '0'}")
+        elif k == "act":
+            out.append("\t".join([act, "-" if op[2] is None else str(op[2]), str(op[3]), "1" if op[4] else "0", str(NOW)]))
         else:
             _, topic, uid, req, contribs, cid, conf, ts = op
             out.append("\t".join([pub, str(topic), str(uid), nl(req), nl(c for c in contribs if c is not None),
@@ -150,11 +170,67 @@ def execute(case):
 
     publisher._post_webpush = fake_post                  # the fake sender
     obs = []
+    eng: dict = {}                                       # the engine of the case: data, FromFrontend
+
+    def table_rows():
+        with database.create_scope():
+            return [(r.id, _unum(r.user_id)) for r in
+                    database.scoped_session().scalars(select(DMdl.WebPushSubscription)).all()]
+
+    async def do_act(kind, contributor):
+        import openpectus.protocol.aggregator_messages as AM
+        ff, eid, ed = eng["ff"], eng["id"], eng["data"]
+        if kind == "save":
+            await ff.save_method(eid, Mdl.Method(lines=[], version=ed.method.version, last_author=""), contributor)
+        elif kind == "cancel":
+            await ff.request_cancel(eid, "line-1", contributor)
+        elif kind == "force":
+            await ff.request_force(eid, "line-1", contributor)
+        elif kind == "command":
+            await ff.excute_command(eid, contributor.id, contributor.name, AM.InjectCodeMsg(pcode="Mark: a"))
+        elif kind == "control":
+            await ff.excute_control_button_command(eid, contributor.id, contributor.name,
+                                                   AM.ExecuteControlCommandMsg(name="Start"))
+        else:
+            raise ValueError(kind)
+        for _ in range(50):                              # let the scheduled publish task(s) finish
+            if len(asyncio.all_tasks()) <= 1:
+                break
+            await asyncio.sleep(0)
+
     real_time = wpp.time
     wpp.time = types.SimpleNamespace(time=lambda: float(NOW))
     try:
         for n, op in enumerate(case["ops"]):
             k = op[0]
+            if k == "engine":
+                import openpectus.protocol.aggregator_messages as AM
+                from datetime import datetime, UTC
+                from unittest.mock import AsyncMock
+                from openpectus.aggregator.aggregator import FromFrontend
+                ed = Mdl.EngineData(engine_id=f"E{op[1]}", computer_name="c", engine_version="1", hardware_str="",
+                                    uod_name="u", uod_author_name="", uod_author_email="", uod_filename="",
+                                    location="", data_log_interval_seconds=1)
+                ed.required_roles = {f"role{r}" for r in op[2]}
+                if op[3]:
+                    ed.run_data = Mdl.RunData.empty(run_id="run-1", run_started=datetime.now(UTC))
+                dispatcher = Mock()
+                dispatcher.rpc_call = AsyncMock(return_value=AM.SuccessMessage())       # the engine answers ok
+                fe_publisher = Mock()
+                fe_publisher.publish_method_changed = AsyncMock()
+                eng.update(id=f"E{op[1]}", data=ed,
+                           ff=FromFrontend({f"E{op[1]}": ed}, dispatcher, fe_publisher, publisher))
+                obs.append(("ok",))
+                continue
+            if k == "act":
+                _, kind, actor, name, conf = op
+                rows = table_rows()
+                publisher.wp = Mock() if conf else None
+                posted.clear()
+                posted_pairs.clear()
+                _run(do_act(kind, Mdl.Contributor(id=None if actor is None else f"user{actor}", name=f"name{name}")))
+                obs.append(("A", list(posted), rows, list(posted_pairs)))
+                continue
             if k == "pub":
                 _, topic, uid, req, contribs, cid, conf, ts = op
                 with database.create_scope():
@@ -214,7 +290,7 @@ def impl_lines(case) -> list[str]:
     except Exception as e:  # noqa: BLE001
         return [f"err:{type(e).__name__}:{e}"[:200]]
     _OBS[id(case)] = obs
-    out = []
+    out = ["ok"]            # answer to the `config` line
     for o in obs:
         if o[0] in ("ok", "del"):
             out.append("ok")
@@ -238,7 +314,11 @@ def oracle(case) -> list[Failure] | None:
     prefs: dict[int, dict] = {}
     subs: list[tuple[int, int]] = []          # subscriptions made and not deleted: (user, endpoint), with multiplicity
     found: dict[str, Failure] = {}
+    engine: dict = {}
     for i, (op, o) in enumerate(zip(case["ops"], obs)):
+        if op[0] == "engine":
+            engine = {"id": op[1], "req": op[2], "run": op[3], "contributors": set()}
+            continue
         if op[0] == "pref":
             prefs[op[1]] = {"roles": set(op[2]), "scope": op[3], "topics": set(op[4]), "units": set(op[5])}
             continue
@@ -249,9 +329,20 @@ def oracle(case) -> list[Failure] | None:
             if o[0] == "del" and o[1] is not None and tuple(o[1]) in subs:
                 subs.remove(tuple(o[1]))     # the row that was deleted stood for this subscription
             continue
-        if op[0] != "pub":
+        if op[0] == "act":
+            # a request of user `actor` on the engine: the push about it is a NEW_CONTRIBUTOR notification about that user.
+            # The oracle takes the contributor from the REQUEST, not from whatever the code put into the notification.
+            _, _kind, actor, name, conf = op
+            is_new = (actor, name) not in engine["contributors"]
+            engine["contributors"].add((actor, name))
+            topic, uid, req, cid, ts = NEW_CONTRIBUTOR, engine["id"], engine["req"], actor, None
+            contribs = [a for a, _n in engine["contributors"]]
+            expect = bool(is_new and actor is not None and engine["run"] and conf)
+        elif op[0] == "pub":
+            _, topic, uid, req, contribs, cid, conf, ts = op
+            expect = bool(conf and (ts is None or ts == 0 or ts >= LIMIT))
+        else:
             continue
-        _, topic, uid, req, contribs, cid, conf, ts = op
         posted_ids, pairs = o[1], [tuple(x) for x in o[3]]
         where = {"ops": case["ops"][:i + 1]}
 
@@ -279,8 +370,7 @@ def oracle(case) -> list[Failure] | None:
             if posted_ids.count(rid) > 1:
                 fail("subscription-notified-twice", f"row {rid} posted {posted_ids.count(rid)} times")
         allowed = Counter(se for se in subs if why_not(se[0]) is None and not about(se[0]))
-        fresh = ts is None or ts == 0 or ts >= LIMIT
-        required = allowed if (conf and fresh) else Counter()
+        required = allowed if expect else Counter()
         got = Counter(pairs)
         for (user, ep), k in sorted((got - allowed).items()):
             w = why_not(user)
@@ -314,9 +404,9 @@ def gen_exhaustive() -> list[dict]:
     subsets = [[], [0], [1], [0, 1]]
     for roles, req, scope, sel, contributed, listed, nc in itertools.product(
             subsets, subsets, (0, 1, 2), (0, 1), (0, 1), (0, 1), (0, 1, 2)):
-        topic = NEW_CONTRIBUTOR if nc else 0
+        topic = NEW_CONTRIBUTOR if nc else OTHER
         cid = None if nc == 0 else (2 if nc == 1 else 1)
-        ops = [["pref", 1, roles, scope, [topic] if sel else [3], [5] if listed else [4]], ["sub", 1, 1],
+        ops = [["pref", 1, roles, scope, [topic] if sel else [UNSEL], [5] if listed else [4]], ["sub", 1, 1],
                ["pub", topic, 5, req, [1, 2] if contributed else [2], cid, True, FRESH]]
         cases.append({"ops": ops})
     return cases
@@ -328,11 +418,11 @@ def gen_shared() -> list[dict]:
     cases = []
     orders = [o for ln in (2, 3) for o in itertools.product((1, 2), repeat=ln) if len(set(o)) == 2]
     for order, sel1, sel2, dele in itertools.product(orders, (0, 1), (0, 1), (0, 1)):
-        ops = [["pref", 1, [], 0, [0] if sel1 else [3], []], ["pref", 2, [], 0, [0] if sel2 else [3], []]]
+        ops = [["pref", 1, [], 0, [OTHER] if sel1 else [UNSEL], []], ["pref", 2, [], 0, [OTHER] if sel2 else [UNSEL], []]]
         ops += [["sub", u, 7] for u in order]
-        ops.append(["pub", 0, 0, [], [], None, True, FRESH])
+        ops.append(["pub", OTHER, 0, [], [], None, True, FRESH])
         if dele:
-            ops += [["del", 1], ["pub", 0, 0, [], [], None, True, FRESH]]
+            ops += [["del", 1], ["pub", OTHER, 0, [], [], None, True, FRESH]]
         cases.append({"ops": ops})
     return cases
 
@@ -342,7 +432,7 @@ def gen_random(ctx: Check, n: int) -> list[dict]:
     cases = []
     for _ in range(n):
         nusers = rng.randrange(1, 6)
-        hot = rng.sample(range(9), 2) + [NEW_CONTRIBUTOR]         # topics used by the publishes of this case
+        hot = rng.sample(range(NT), 2) + [NEW_CONTRIBUTOR]         # topics used by the publishes of this case
         ops: list[list] = []
         nsubs = 0
         sharing = rng.random() < 0.4                             # some browsers are used by several users
@@ -353,7 +443,7 @@ def gen_random(ctx: Check, n: int) -> list[dict]:
             return 10 * u + rng.randrange(3)                      # own endpoints; re-posting the same one happens
 
         def pref(u):
-            topics = sorted({t for t in range(9) if rng.random() < (0.6 if t in hot else 0.15)})
+            topics = sorted({t for t in range(NT) if rng.random() < (0.6 if t in hot else 0.15)})
             return ["pref", u, sorted(rng.sample(range(3), rng.choice([0, 1, 1, 2, 3]))), rng.randrange(3), topics,
                     sorted(rng.sample(range(3), rng.choice([0, 1, 1, 2])))]
 
@@ -375,7 +465,7 @@ def gen_random(ctx: Check, n: int) -> list[dict]:
                 ops.append(["sub", u, endpoint(u)])
                 nsubs += 1
             else:
-                topic = rng.choice(hot + hot + [rng.randrange(9)])
+                topic = rng.choice(hot + hot + [rng.randrange(NT)])
                 contribs = rng.sample(range(nusers), rng.randrange(0, nusers + 1))
                 cid = rng.choice(contribs) if contribs and rng.random() < 0.8 else rng.choice([None, rng.randrange(nusers)])
                 if topic != NEW_CONTRIBUTOR and rng.random() < 0.7:
@@ -390,25 +480,31 @@ def gen_random(ctx: Check, n: int) -> list[dict]:
 
 def gen_malformed(ctx: Check, n: int) -> list[dict]:
     rng = ctx.rng
-    cases = [{"ops": [["pub", 0, 0, [], [], None, True, FRESH]]},
-             {"ops": [["sub", 1], ["pub", 0, 0, [], [], None, True, FRESH]]},            # subscription without preferences
-             {"ops": [["pref", 1, [], 0, list(range(9)), []], ["sub", 1], ["sub", 1], ["del", 2], ["sub", 1],
-                      ["pub", 0, 0, [], [], None, True, FRESH], ["del", 1], ["del", 3], ["del", 9],
-                      ["pub", 0, 0, [], [], None, True, FRESH]]},
-             {"ops": [["pref", 1, [], 0, [6], []], ["sub", 1], ["pub", 6, 0, [], [None, 1], 1, True, FRESH],
-                      ["pub", 6, 0, [], [None], None, True, FRESH], ["pub", 0, 0, [], [1], 1, True, FRESH]]}]
+    nc, ot = NEW_CONTRIBUTOR, OTHER
+    cases = [{"ops": [["pub", ot, 0, [], [], None, True, FRESH]]},
+             {"ops": [["sub", 1], ["pub", ot, 0, [], [], None, True, FRESH]]},            # subscription without preferences
+             {"ops": [["pref", 1, [], 0, list(range(NT)), []], ["sub", 1], ["sub", 1], ["del", 2], ["sub", 1],
+                      ["pub", ot, 0, [], [], None, True, FRESH], ["del", 1], ["del", 3], ["del", 9],
+                      ["pub", ot, 0, [], [], None, True, FRESH]]},
+             {"ops": [["pref", 1, [], 0, [nc], []], ["sub", 1], ["pub", nc, 0, [], [None, 1], 1, True, FRESH],
+                      ["pub", nc, 0, [], [None], None, True, FRESH], ["pub", ot, 0, [], [1], 1, True, FRESH]]},
+             # anonymous user, no engine run, publishing not configured, the same user twice under two names
+             {"ops": [["pref", 1, [], 0, [nc], []], ["pref", 2, [], 0, [nc], []], ["sub", 1], ["sub", 2],
+                      ["engine", 0, [], True], ["act", "save", None, 0, True], ["act", "cancel", 1, 1, False],
+                      ["act", "force", 1, 1, True], ["act", "command", 1, 2, True],
+                      ["engine", 0, [], False], ["act", "control", 2, 2, True]]}]
     for _ in range(n):
         ops: list[list] = []
         for u in range(rng.randrange(0, 4)):
             if rng.random() < 0.7:
                 ops.append(["pref", u, sorted(rng.sample(range(3), rng.randrange(0, 4))), rng.randrange(3),
-                            sorted(rng.sample(range(9), rng.choice([0, 1, 5, 9]))), sorted(rng.sample(range(4), rng.randrange(0, 3)))])
+                            sorted(rng.sample(range(NT), rng.choice([0, 1, NT // 2, NT]))), sorted(rng.sample(range(4), rng.randrange(0, 3)))])
             for _ in range(rng.randrange(0, 3)):
                 ops.append(["sub", u, rng.randrange(3)])           # three endpoints shared by everybody
         for _ in range(rng.randrange(1, 5)):
             ts = rng.choice([FRESH, None, 0, 1, LIMIT, LIMIT - 1, LIMIT + 1, LIMIT - 60_000, FRESH + 10 ** 7])
             contribs = [rng.choice([None, 0, 1, 2, 3]) for _ in range(rng.randrange(0, 4))]
-            ops.append(["pub", rng.choice([0, 6, 6, 8]), rng.randrange(5), sorted(rng.sample(range(4), rng.randrange(0, 3))),
+            ops.append(["pub", rng.choice([OTHER, NEW_CONTRIBUTOR, NEW_CONTRIBUTOR, NT - 1]), rng.randrange(5), sorted(rng.sample(range(4), rng.randrange(0, 3))),
                         contribs, rng.choice([None, 0, 1, 2, 7]), rng.random() < 0.8, ts])
             if rng.random() < 0.2:
                 ops.append(["del", rng.randrange(1, 6)])
@@ -416,23 +512,78 @@ def gen_malformed(ctx: Check, n: int) -> list[dict]:
     return cases
 
 
+def gen_e2e_small() -> list[dict]:
+    """User 1 acts on unit 5 through each of the five contributing requests; user 1 is subscribed and selects
+    NEW_CONTRIBUTOR under each of the three scopes; user 2 (access scope) must hear about it, user 1 never."""
+    cases = []
+    nc = NEW_CONTRIBUTOR
+    for kind, scope, has_run, again in itertools.product(ACT_KINDS, (0, 1, 2), (True, False), (False, True)):
+        ops = [["pref", 1, [], scope, [nc], [5]], ["pref", 2, [], 0, [nc], []], ["sub", 1, 1], ["sub", 2, 2], ["sub", 1, 3],
+               ["engine", 5, [], has_run], ["act", kind, 1, 1, True]]
+        if again:
+            ops.append(["act", kind, 1, 1, True])
+        ops.append(["act", kind, 2, 2, True])
+        cases.append({"ops": ops})
+    return cases
+
+
+def gen_e2e(ctx: Check, n: int) -> list[dict]:
+    """Random databases, then users contribute to a running (or idle) engine through the real FromFrontend requests."""
+    rng = ctx.rng
+    cases = []
+    nc = NEW_CONTRIBUTOR
+    for _ in range(n):
+        nusers = rng.randrange(2, 6)
+        ops: list[list] = []
+        for u in range(nusers):
+            if rng.random() < 0.9:
+                topics = sorted({t for t in range(NT) if rng.random() < (0.75 if t == nc else 0.2)})
+                ops.append(["pref", u, sorted(rng.sample(range(3), rng.choice([0, 1, 1, 2, 3]))), rng.randrange(3), topics,
+                            sorted(rng.sample(range(3), rng.choice([0, 1, 1, 2])))])
+            for _ in range(rng.choice([0, 1, 1, 2])):
+                ops.append(["sub", u, 10 * u + rng.randrange(2) if rng.random() < 0.8 else 90])
+        rng.shuffle(ops)
+        ops.append(["engine", rng.randrange(3), sorted(rng.sample(range(3), rng.choice([0, 0, 1, 2]))), rng.random() < 0.85])
+        for _ in range(rng.randrange(2, 7)):
+            k = rng.random()
+            if k < 0.08:
+                ops.append(["engine", rng.randrange(3), sorted(rng.sample(range(3), rng.choice([0, 1]))), rng.random() < 0.8])
+            elif k < 0.14:
+                ops.append(["sub", rng.randrange(nusers), 90])
+            else:
+                actor = None if rng.random() < 0.08 else rng.randrange(nusers)
+                ops.append(["act", rng.choice(ACT_KINDS), actor, actor if actor is not None and rng.random() < 0.9 else 77,
+                            rng.random() < 0.92])
+        cases.append({"ops": ops})
+    return cases
+
+
 def gen_like() -> list[dict]:
     """Preference rows for every 0-, 1- and 2-element (ordered) topic list; then every topic is queried."""
-    lists = [[]] + [[a] for a in range(9)] + [[a, b] for a in range(9) for b in range(9) if a < b]
-    ops = [["pref", i, [], 0, ts, []] for i, ts in enumerate(lists)] + [["topicprefs", t] for t in range(9)]
-    full = [["pref", 500, [], 0, list(range(9)), []]] + [["pref", 501 + t, [], 0, [x for x in range(9) if x != t], []]
-                                                         for t in range(9)] + [["topicprefs", t] for t in range(9)]
+    n = NT
+    lists = [[]] + [[a] for a in range(n)] + [[a, b] for a in range(n) for b in range(n) if a < b]
+    ops = [["pref", i, [], 0, ts, []] for i, ts in enumerate(lists)] + [["topicprefs", t] for t in range(n)]
+    full = [["pref", 500, [], 0, list(range(n)), []]] + [["pref", 501 + t, [], 0, [x for x in range(n) if x != t], []]
+                                                         for t in range(n)] + [["topicprefs", t] for t in range(n)]
     return [{"ops": ops}, {"ops": full}]
 
 
 def is_nontrivial(case, _out=None) -> bool:
     return sum(1 for o in case["ops"] if o[0] == "pref") >= 1 and any(
-        o[0] == "pub" and (o[3] or o[1] == NEW_CONTRIBUTOR) for o in case["ops"])
+        (o[0] == "pub" and (o[3] or o[1] == NEW_CONTRIBUTOR)) or o[0] == "act" for o in case["ops"])
 
 
 def _count(ctx: Check, case) -> None:
     obs = _OBS.get(id(case))
     for op, o in zip(case["ops"], obs or []):
+        if op[0] == "act":
+            ctx.count("acts")
+            ctx.count(f"act={op[1]}")
+            if o[1]:
+                ctx.count("act-with-notification")
+            if op[2] is not None and any(u == op[2] for _rid, u in o[2]):
+                ctx.count("act-by-subscribed-user")
+            continue
         if op[0] != "pub":
             continue
         ctx.count("publishes")
